@@ -8,7 +8,8 @@ What is *not* Eliot's code is a parameter (`Env`): `pprint.pformat(·, width=40)
 separators=(",", ":"))`, `str(·)`, `datetime.(utc)fromtimestamp(·).isoformat()`, `json.loads`,
 `repr` of a bytes object, the filter's `json.dumps(·, cls=_DatetimeJSONEncoder)`.  Everything Eliot
 does with their results (escape replacement, re-indentation, field order, skip set, header, the
-`Not JSON` / `Not an Eliot message` fallbacks, and every place where it would raise) is transliterated. -/
+`Not JSON` / `Not an Eliot message` fallbacks, the two `try/except` of `_main` with exactly the classes
+they catch, and every place where it would raise) is transliterated (tree at 36c5d35). -/
 namespace PP
 
 abbrev Text := List Nat
@@ -39,7 +40,7 @@ inductive Decoded where
 deriving Inhabited
 
 structure Env where
-  pformat : JVal → Text                       -- pprint.pformat(value, width=40)
+  pformat : JVal → Except Exc Text            -- pprint.pformat(value, width=40); RecursionError on very deep nesting
   dumps : JVal → Text                         -- json.dumps(value, separators=(",", ":"))
   pyStr : JVal → Text                         -- str(value)
   isoTime : JVal → Bool → Except Exc Text     -- _render_timestamp's datetime part; Bool = local timezone
@@ -151,29 +152,47 @@ def renderTimestamp (E : Env) (m : Fields) (localTz : Bool) : Except Exc Text :=
 
 /-! ## `pretty_format` -/
 
-/-- the nested `add_field` -/
-def addField (E : Env) (key : Text) (value : JVal) : Text :=
-  let v := replace2 92 116 [9] (replace2 92 110 [10, 32] (E.pformat value))
+/-- the nested `add_field`, given the `pformat` text of the value -/
+def addFieldText (key : Text) (p : Text) : Text :=
+  let v := replace2 92 116 [9] (replace2 92 110 [10, 32] p)
   let indent := List.replicate (2 + key.length) 32 ++ t "| "
   let v' := match splitNl v with
     | [] => []
     | l :: ls => join [10] (l :: ls.map (indent ++ ·))
   t "  " ++ key ++ t ": " ++ v' ++ [10]
 
-def prettyBody (E : Env) (m : Fields) : Text :=
-  (shown m).flatMap fun e => addField E e.1 e.2
+def addField (E : Env) (key : Text) (value : JVal) : Except Exc Text :=
+  match E.pformat value with
+  | .error e => .error e
+  | .ok p => .ok (addFieldText key p)
+
+/-- `remaining += add_field(...)` over the shown pairs, in order -/
+def bodyOf (E : Env) : Fields → Except Exc Text
+  | [] => .ok []
+  | e :: es =>
+    match addField E e.1 e.2 with
+    | .error x => .error x
+    | .ok a =>
+      match bodyOf E es with
+      | .error x => .error x
+      | .ok r => .ok (a ++ r)
+
+def prettyBody (E : Env) (m : Fields) : Except Exc Text := bodyOf E (shown m)
 
 def prettyFormat (E : Env) (m : Fields) (localTz : Bool) : Except Exc Text :=
-  -- `remaining` is built first and cannot raise; then `level`, then the `%` tuple left to right
-  match levelText E m with
+  -- `remaining` is built first; then `level`, then the `%` tuple left to right
+  match prettyBody E m with
   | .error e => .error e
-  | .ok level =>
-    match uuidText E m with
+  | .ok body =>
+    match levelText E m with
     | .error e => .error e
-    | .ok uuid =>
-      match renderTimestamp E m localTz with
+    | .ok level =>
+      match uuidText E m with
       | .error e => .error e
-      | .ok ts => .ok (uuid ++ t " -> " ++ level ++ [10] ++ ts ++ [10] ++ prettyBody E m)
+      | .ok uuid =>
+        match renderTimestamp E m localTz with
+        | .error e => .error e
+        | .ok ts => .ok (uuid ++ t " -> " ++ level ++ [10] ++ ts ++ [10] ++ body)
 
 /-! ## `compact_format` -/
 
@@ -202,19 +221,25 @@ inductive Out where
   | aborts (e : Exc)        -- an exception leaves `_main`: the rest of the input is never read
 deriving Inhabited
 
+/-- `except (TypeError, ValueError, OverflowError, OSError)` around the formatter call -/
+def caught (e : Exc) : Bool :=
+  e == .typeError || e == .valueError || e == .overflowError || e == .osError
+
 def cliLine (E : Env) (compact localTz : Bool) (line : Bytes) : Out :=
+  let notEliot := Out.notEliot (t "Not an Eliot message: " ++ E.reprBytes (rstripNl line) ++ [10, 10])
   match E.loads line with
   | .notJson => .notJson (t "Not JSON: " ++ E.reprBytes (rstripNl line) ++ [10, 10])
-  | .raises e => .aborts e
+  | .raises e =>
+    -- `except (ValueError, RecursionError)`
+    if e = .recursionError then .notJson (t "Not JSON: " ++ E.reprBytes (rstripNl line) ++ [10, 10]) else .aborts e
   | .value (.obj m) =>
-    -- `REQUIRED_FIELDS - set(message.keys())`
-    if requiredFields.any (fun r => !has m r) then
-      .notEliot (t "Not an Eliot message: " ++ E.reprBytes (rstripNl line) ++ [10, 10])
+    -- `not isinstance(message, dict) or REQUIRED_FIELDS - set(message.keys())`
+    if requiredFields.any (fun r => !has m r) then notEliot
     else
       match (if compact then compactFormat E m localTz else prettyFormat E m localTz) with
       | .ok s => .formatted (s ++ [10])
-      | .error e => .aborts e
-  | .value _ => .aborts .attributeError          -- `message.keys()` on a list / str / int / float / None / bool
+      | .error e => if caught e then notEliot else .aborts e
+  | .value _ => notEliot
 
 /-- the loop: outputs so far, and the exception that ended it (if any) -/
 def cliRun (E : Env) (compact localTz : Bool) : List Bytes → List Text × Option Exc
